@@ -237,6 +237,7 @@ func runC08(c *Check) {
 			}
 		}
 	})
+	extraC08(c)
 }
 
 // counterIncs returns the `x + 1` instructions feeding a counter phi.
